@@ -176,6 +176,7 @@ func runK2(e *env, name string, batches []*k2Batch) (*k2Result, error) {
 				var sreqs []*sx.Node
 				var simpl []string
 				var sdescr []map[string]any
+				var sfields []string // per-field settings (w10_c10.go)
 				for _, oc := range b.Outcomes {
 					if oc.Conv == nil || (oc.Stage != "ok" && oc.Stage != "generate") {
 						continue
@@ -189,6 +190,7 @@ func runK2(e *env, name string, batches []*k2Batch) (*k2Result, error) {
 							sx.Strs("rxbad", badRegexes(sc)), sx.Strs("cli", sc.CLI), sx.Strs("conv", sc.Conv), sx.Strs("meth", sc.Meth), sx.H("loaderok", sx.B(true)))
 						sreqs = append(sreqs, req)
 						simpl = append(simpl, commonToSx(&m.Common).String())
+						sfields = append(sfields, implFieldSettings(m))
 						sdescr = append(sdescr, map[string]any{"case": sc, "converter": oc.Raw.InterfaceName, "method": m.Name, "batch": kb.Tag})
 					}
 				}
@@ -204,6 +206,7 @@ func runK2(e *env, name string, batches []*k2Batch) (*k2Result, error) {
 						continue
 					}
 					res.SettingsCompared++
+					fieldSettingsTie(res, sdescr[i], sfields[i], ans)
 					if mc := ans.L[2].L[1].String(); mc != simpl[i] {
 						d := sdescr[i]
 						d["implementation"], d["model"] = simpl[i], mc
@@ -428,6 +431,10 @@ func runK2(e *env, name string, batches []*k2Batch) (*k2Result, error) {
 	}
 	symReport(e, e.prop+" ("+name+")", res.SymEqual, res.SymUnliftable, res.SymDiffs, res.SymUnliftableSamples)
 	for _, d := range res.SettingsDiffs {
+		if d["broken"] != nil {
+			e.rep.Violation("", d, false)
+			continue
+		}
 		d["broken"] = "correspondence " + e.prop + " (settings of a generated method): the Common resolved by the implementation's configuration stage from the command line, converter and method lines differs from Gv.Settings.resolve on the same lines"
 		e.rep.Violation("", d, false)
 	}
